@@ -25,6 +25,8 @@ Lemmas: `Lemmas/d17MsgpackNP.lean`, `Lemmas/d17MsgpackAlloc.lean`, `Lemmas/d17Al
 import CtyModel.Props.C17Json
 import CtyModel.Lemmas.d17MsgpackNP
 import CtyModel.Lemmas.d17MsgpackConf
+import CtyModel.Lemmas.d17MsgpackImplied
+import CtyModel.Lemmas.d17MsgpackWF
 import CtyModel.Lemmas.d17MsgpackAlloc
 import CtyModel.Lemmas.d17AllocSites
 import CtyModel.Lemmas.d17JsonDepth
@@ -165,6 +167,73 @@ example :
            .ext 12 9 (.map 2) [.int 1, .bool false, .int 3, .arr [.int 0, .bool true]]]) = true ∧
     Ty.wf (.object ["m", "s", "t", "u"] [.map .number, .set .string, .tuple [.bool, .dyn], .number]
           [false, false, true, false]) = true := by decide +kernel
+
+/-- A type `msgpack.ImpliedType` returns satisfies the representation invariant (attribute names
+strictly ascending — a repeated key overwrites —, one type and one flag per name), has no
+optional-attribute annotation, and its attribute names are fixed points of `norm`: every item tree,
+every `Ext`, no assumption. -/
+theorem msgpack_implied_ok_wf (E : Ext) (it : Item) (t : Ty) (h : impliedType E it = .ok t) :
+    Ty.wf t = true ∧ Ty.hasOpt t = false ∧ Ty.namesAll (C17Json.nfcOf E.norm) t = true :=
+  impliedType_good E it t h
+
+example : (match impliedType mext0 (.map [.str "b", .str "a", .str "b"] [.nil, .arr [.int 1, .map [] []], .ext 0 1 .other []]) with
+    | .ok t => t.equals (.object ["a", "b"] [.tuple [.number, .object [] [] []], .dyn] [false, false])
+    | _ => false) = true := by decide +kernel
+
+/-- an `Ext` whose `SetVal` answers only for sets of at most one member (where hashing and
+de-duplication — property C03's — have nothing to do): it satisfies the laws below -/
+def mext1 : Ext :=
+  { norm := id, safePrefix := fun _ => none,
+    setOf := fun _ ps => match ps with
+      | [] => .ok (.sset [] [])
+      | [p] => .ok (.sset [7] [p])
+      | _ => .unmodelled }
+
+/-- the laws of the well-formedness clause are satisfiable -/
+theorem mext1_laws : WLaws mext1 where
+  norm_idem := fun _ => rfl
+  set_wf := by
+    intro e ps p h1 h2 h3
+    match ps, h1, h2, h3 with
+    | [], _, _, h3 => cases h3; simp [Payload.wfP, Payload.wfAll, Payload.containsMarked, Payload.containsMarkedL, idsAsc, noDup]
+    | [q], h1, h2, h3 =>
+      cases h3
+      simp only [Payload.wfAll, Bool.and_true] at h1
+      simp only [Payload.containsMarkedL, Bool.or_false] at h2
+      simp [Payload.wfP, Payload.wfAll, Payload.containsMarked, Payload.containsMarkedL, idsAsc, noDup, h1, h2]
+    | _ :: _ :: _, _, _, h3 => cases h3
+
+/-- A value `msgpack.Unmarshal` returns is WELL-FORMED in the sense of C06 (`Value.WF`, with "NFC"
+read as "fixed point of `norm`": payload constructors as the type dictates at every depth, tuple
+lengths and attribute sets, ascending normalised map keys, refinements of the kind their type calls
+for, no marks, lawful sets, a well-formed type without optional annotations and with normalised
+names) — relative to the laws of the external functions (`WLaws`: `norm` idempotent; `SetVal`
+returns a well-formed unmarked set when handed well-formed unmarked members), for a requested type
+whose attribute names are normalised (as the type constructors make them).  Every item tree with
+parallel map lists, every equality oracle.  In particular a refined unknown value that comes out of
+the replay of a refinement map carries a refinement of the right kind for its type, and one that
+collapses (`NewValue`: equal number bounds, zero or pinned collection length) is the well-formed
+known value. -/
+theorem msgpack_ok_wellformed [EqOracle] (E : Ext) (hl : WLaws E) (it : Item) (ty : Ty) (v : Value)
+    (hi : itemOk it = true) (hty : Ty.wf ty = true) (hn : Ty.namesAll (C17Json.nfcOf E.norm) ty = true)
+    (h : D17.Unmarshal E it ty = .ok v) : v.WF (C17Json.nfcOf E.norm) = true :=
+  Unmarshal_wf E hl it ty v hi hty hn h
+
+/-- … and the conclusion is reached: a document with every kind of node (a one-member set, a map
+with a repeated key, a tuple with a dynamic wrapper, a refined unknown number, an unknown list
+with length bounds) decodes to a well-formed value under lawful external functions -/
+example :
+    (match @D17.Unmarshal textOracle mext1
+        (.map [.str "m", .str "s", .str "t", .str "u", .str "w"]
+          [.map [.str "b", .str "a", .str "b"] [.int 1, .str "2.5", .int 3],
+           .arr [.str "x"],
+           .arr [.bool true, .arr [.binj (.arr [.str "list", .str "string"]), .arr [.str "p"]]],
+           .ext 12 9 (.map 2) [.int 1, .bool false, .int 3, .arr [.int 0, .bool true]],
+           .ext 12 7 (.map 3) [.int 1, .bool false, .int 5, .int 2, .int 6, .int 4]])
+        (.object ["m", "s", "t", "u", "w"] [.map .number, .set .string, .tuple [.bool, .dyn], .number, .list .bool]
+          [false, false, true, false, false]) with
+      | .ok v => v.WF (C17Json.nfcOf mext1.norm)
+      | _ => false) = true := by decide +kernel
 
 /-! ## The limits, tied to the source -/
 
